@@ -695,7 +695,7 @@ fn cmd_replay(path: &str, quiet: bool) -> i32 {
             return 2;
         }
     };
-    let (case, out) = rf.run(&RunOpts { record_history: !quiet, backtraces: !quiet, verbose: false, os_threads: rf.os_threads, ..Default::default() });
+    let (case, out) = rf.run(&RunOpts { record_history: !quiet, backtraces: !quiet, verbose: std::env::var("DV_VERBOSE").is_ok(), os_threads: rf.os_threads, ..Default::default() });
     if rf.os_threads && !quiet {
         println!("(run with one OS thread per simulated thread)");
     }
